@@ -118,6 +118,10 @@ Definition titem_ok (x : titem) : bool :=
       && forallb eitem_ok body
   end.
 
+(* the single-tag stage of a table line *)
+Definition own_single (st : stage) (ee : bool) : bool :=
+  let '(kind, b, _, _, _) := st in String.eqb kind "Single" && String.eqb b (ttt_tag ee).
+
 Definition init_keys : list string := ["STATE_0"; "state_0"].
 
 Definition item16_ok (it : item16) : bool :=
@@ -134,6 +138,11 @@ Definition item16_ok (it : item16) : bool :=
       block_lines_ok pst_tags (ib ++ begin_line "PER_STATETRANSITION")%string (ie ++ end_line "PER_STATETRANSITION")%string
       && forallb titem_ok body
   | InitLine l => line_ok l && forallb (closed_seg init_keys) l && load_inert (render_line l)
+  | UserLine l => plain_line_ok l
+  | TableLine pre ee =>
+      let s := (pre ++ ttt_tag ee ++ nl_str)%string in
+      load_inert s && hasSpecificTag s (ttt_tag ee) && String.eqb (getWhitespace s) pre
+      && forallb (fun st => own_single st ee || stage_inert s st) all_stages
   end.
 
 Definition in_grammar16 (t : template16) : bool :=
@@ -164,15 +173,20 @@ Definition item16_wf (e : elements) (it : item16) : bool :=
   | SigBlock _ _ body => block_wf sig_table (el_sigs e) body
   | TransBlock _ _ _ => tps_wf (el_tps e)
   | InitLine _ => forallb (fun kv => no_lg (snd kv)) (init_table (el_first e))
+  | UserLine l => for_plain (ref_line (el_user e) l)
+  | TableLine pre ee => forallb no3 (sml_print (el_states e) (el_rows e) ee pre)
   end.
 
 Definition wf_elements16 (t : template16) (e : elements) : bool := forallb (item16_wf e) t.
+
+(* no line with user tags outside blocks (then the result does not depend on the user-tag assignment) *)
+Definition no_user_lines (t : template16) : bool := forallb (fun it => match it with UserLine _ => false | _ => true end) t.
 
 (* the element lists the engine works with *)
 Definition elements_of_model (m : smodel) : elements :=
   {| el_states := sm_states m; el_events := sm_events m; el_actions := sm_actions m; el_guards := sm_guards m;
      el_sigs := map snd (sm_actionsigs m);
-     el_structs := if_structs m; el_protos := if_protos m; el_msgs := if_msgs m; el_tps := sm_tps m; el_first := sm_first m |}.
+     el_structs := if_structs m; el_protos := if_protos m; el_msgs := if_msgs m; el_tps := sm_tps m; el_first := sm_first m; el_rows := sm_rows m; el_user := [] |}.
 
 Definition engine16 (m : smodel) (dict : list (string * string)) (t : template16) : option string :=
   generate_file m dict [] (render16 t).
